@@ -36,12 +36,21 @@ CLAIMS = {
  "C11": ("property-based fault injection: generated (phase, in-flight traffic, way of ending) vs bounded-time release oracle (rapid)",
          "For each generated point of the exchange, traffic pattern and way of ending, the harness observes within 5 s: end-of-stream at the remote desktop host, closure of the client-facing connections by the gateway, no goroutine left inside the protocol package, the exported connection registry back to its size, the websocket/legacy gauges restored. In-process (goroutines, registry) and real binary (/metrics gauges, go_goroutines).",
          "4 C11"),
+ "C14": ("stateful property-based testing against a reference NTLMv2 verifier (session-challenge model) with an independent NTLMv2 message builder (rapid)",
+         "Generated interleavings of negotiate, authenticate, replay and garbage messages over several sessions are applied to the repository's NTLM verifier; for every authenticate the harness recomputes, from the configured database only, HMAC_MD5(NTOWFv2(db[named user]), challenge of this session || blob): Authenticated must imply that equality (and the returned name), and a correct exchange must authenticate. The verifier package is tested in-process; the rdpgw-auth binary itself cannot be built here (PAM headers).",
+         "4 C14"),
+ "C15": ("property-based testing: generated token families vs an independent dir/A128CBC-HS256 reference decryption (rapid)",
+         "Tokens around a minted one are generated for both key modes and checked at security.UserInfo and at the /tokeninfo handler: MUST-REJECT => error / 403 without any claim in the body, minted for U => 200 with sub U, 400/405 as stated, user name not readable from the token text; the verdict comes from the harness's own AES-CBC + HMAC + inflate implementation (stdlib only), not from go-jose.",
+         "4 C15"),
  "C16": ("property-based testing with an independent strict MS-TSGU decoder and a reference encoding of the redirection policy (rapid)",
          "All server packets of generated sessions (all 128 redirect-switch combinations, idle timeouts over int32, every outcome script, both transports, in-process and through the real binary's Caps.* configuration) are decoded strictly (type, header length, fieldsPresent vs bytes) and compared with the reference model (status 0 iff accepted, specific status codes) and the reference encoding of redirection flags and idle timeout.",
          "4 C16"),
  "C17": ("property-based testing against a reference predicate (rapid), exhaustive over the 4 x 65536 capability table in the thorough tier",
          "Every generated (server setting, client capability value, version bytes, transport) is sent as a handshake and compared with the reference predicate from the statement, including the advertised mechanisms, the version echo, the answer to the next step and the end of the tunnel on mismatch.",
          "4 C17"),
+ "C19": ("property-based testing: round trip, independent line grammar (differential) and per-setting reference; coverage-guided fuzzing of the parser in the thorough tier",
+         "Generated settings maps must survive marshal/parse; generated assignments to all RdpSettings fields must print as CRLF-terminated name:(i|s):value lines without duplicates and read back equal through NewBuilderFromFile; templates rendered from such assignments must keep every non-default setting the gateway does not control and carry the gateway's values for the controlled ones (through web.Handler.HandleDownload); arbitrary byte strings are parsed differentially against the harness's own line grammar (error iff some line is malformed).",
+         "4 C19"),
 }
 
 TRUST = ("Trusted: the harness's own MS-TSGU codec, reference models and fake peers (written from the statement and MS-TSGU, independent of the repository); "
